@@ -41,6 +41,7 @@ CallOK(e) ==
   LET p == Path(e) IN
   /\ ~e.panicked
   /\ e.srcsame
+  /\ e.partialeq          \* a decode that fails part-way leaves what encoding/json leaves in the destination
   /\ CASE p = "err"  -> e.iserr
        [] p = "copy" -> ~e.iserr /\ e.copyeq
        [] p = "json" -> ~e.iserr /\ e.desteq
@@ -49,6 +50,7 @@ C16_Failing(h) ==
   LET bad == {i \in 1..Len(h) : h[i].ev = "bind" /\ ~CallOK(h[i])}
   IN {(IF h[i].panicked THEN "neverPanics"
        ELSE IF ~h[i].srcsame THEN "sourceUnchanged"
+       ELSE IF ~h[i].partialeq THEN "jsonRoundTrip"
        ELSE IF Path(h[i]) = "err" THEN "errorReported"
        ELSE IF Path(h[i]) = "copy" THEN "identityForSameType"
        ELSE "jsonRoundTrip") : i \in bad}
